@@ -286,6 +286,35 @@ func c19Ranger(c *Ctx, raw json.RawMessage) {
 	case ro.Out != sb.String():
 		c.Fail("template:"+sigBase, fmt.Sprintf("%s with a=%d b=%d rendered %q, want %q", src, a, b, trunc(ro.Out, 120), trunc(sb.String(), 120)), cas)
 	}
+
+	// ... and with a `continue` that skips one member: every other member is still visited exactly once, in order
+	// (tick bounds the run: a loop that does not advance ends with an error instead of spinning)
+	if len(want) == 0 {
+		return
+	}
+	skip := want[len(want)/2]
+	srcC := "<%= for (k, v) in " + call + " { %><% tick() %><% if (v == s) { continue } %><%= k %>:<%= v %>,<% } %>"
+	ctxC := plush.NewContext()
+	ctxC.Set("a", a)
+	ctxC.Set("b", b)
+	ctxC.Set("s", skip)
+	ticks := 0
+	ctxC.Set("tick", func() error {
+		if ticks++; ticks > len(want)+5 {
+			return fmt.Errorf("the body ran %d times for %d members", ticks, len(want))
+		}
+		return nil
+	})
+	var sc strings.Builder
+	for i, v := range want {
+		if v != skip {
+			fmt.Fprintf(&sc, "%d:%d,", i, v)
+		}
+	}
+	rc2 := guarded(5*time.Second, func() (string, error) { return plush.Render(srcC, ctxC) })
+	if rc2.Hang || rc2.Panic != "" || rc2.IsErr || rc2.Out != sc.String() {
+		c.Fail("template-continue:"+sigBase, fmt.Sprintf("%s with a=%d b=%d s=%d: %+v, want %q", srcC, a, b, skip, rc2, trunc(sc.String(), 120)), cas)
+	}
 }
 
 func intsOrEmpty(x []int) []int {
@@ -453,6 +482,35 @@ func c19Group(c *Ctx, raw json.RawMessage) {
 	ro := guarded(5*time.Second, func() (string, error) { return plush.Render(src, ctx) })
 	if ro.Hang || ro.Panic != "" || ro.IsErr || ro.Out != sb.String() {
 		c.Fail("groupBy:template", fmt.Sprintf("groupBy(%d, []int of %d) in a template: %+v, want %q", gc.N, gc.Len, ro, sb.String()),
+			map[string]interface{}{"gen": "GroupBy", "len": gc.Len, "n": gc.N, "error": gc.Error, "groups": gc.Groups})
+	}
+	// ... and skipping the groups of another length than the first with `continue`
+	if len(want) == 0 {
+		return
+	}
+	ticks := 0
+	ctx.Set("tick", func() error {
+		if ticks++; ticks > len(want)+5 {
+			return fmt.Errorf("the body ran %d times for %d groups", ticks, len(want))
+		}
+		return nil
+	})
+	ctx.Set("m", len(want[0]))
+	srcC := "<%= for (g) in groupBy(n, xs) { %><% tick() %><% if (len(g) != m) { continue } %>[<%= for (x) in g { %><%= x %>,<% } %>]<% } %>"
+	var sc strings.Builder
+	for _, g := range want {
+		if len(g) != len(want[0]) {
+			continue
+		}
+		sc.WriteString("[")
+		for _, x := range g {
+			fmt.Fprintf(&sc, "%d,", x)
+		}
+		sc.WriteString("]")
+	}
+	rc2 := guarded(5*time.Second, func() (string, error) { return plush.Render(srcC, ctx) })
+	if rc2.Hang || rc2.Panic != "" || rc2.IsErr || rc2.Out != sc.String() {
+		c.Fail("groupBy:template-continue", fmt.Sprintf("%s with n=%d, []int of %d: %+v, want %q", srcC, gc.N, gc.Len, rc2, sc.String()),
 			map[string]interface{}{"gen": "GroupBy", "len": gc.Len, "n": gc.N, "error": gc.Error, "groups": gc.Groups})
 	}
 }
